@@ -356,3 +356,69 @@ Example C20_nonvacuous_footprint :
   site_static_ok (mkSite 0 "util.py"%string 10 10 PCheckThenAct BGlobal false) = true /\
   site_static_ok (mkSite 0 "writer.py"%string 10 10 PMutCall BGlobal true) = true.
 Proof. vm_compute. repeat split; reflexivity. Qed.
+
+(* ============================================================================================ *)
+(* deletion of a location (lifted value space: None = tombstone; Footprint.v section 6) and the class Multi *)
+(* ============================================================================================ *)
+(* C20_footprint_confluence above now also covers the class Multi P (a location that may hold nothing or any value
+   satisfying P at any time, written by anybody with such values, every reader coping with every answer). *)
+
+(* invalidation (Del) is a legal action on a cache location, and the no-read-back use copes with it *)
+Theorem C20_del_cache_disciplined :
+  forall (W R : Type) (cls : N -> lclass (option W)) (base : store (option W)) i k ks g (cont : W -> prog (option W) R) pv kn r pf,
+    cls k = Multi (cacheP (g (map base ks))) -> (forall x, In x ks -> cls x = Frozen) ->
+    (forall kn', okp cls base i pv kn' (cont (g (map base ks))) r pf) ->
+    okp cls base i pv kn (use_cache k ks g cont) r pf /\
+    (forall p, okp cls base i pv kn p r pf -> okp cls base i pv kn (Del k p) r pf).
+Proof.
+  intros W R cls base i k ks g cont pv kn r pf M Fz Hc. split.
+  - exact (okp_use_cache W R cls base i k ks g cont pv kn r pf M Fz Hc).
+  - intros p Hp. exact (okp_del_cache W R cls base i k _ p pv kn r pf M Hp).
+Qed.
+Print Assumptions C20_del_cache_disciplined.
+
+(* any number of invalidators and no-read-back users of one cache, EVERY schedule: users obtain the one value *)
+Theorem C20_del_invalidate_confluent :
+  forall (W R : Type) (cls : N -> lclass (option W)) (base : store (option W))
+         (k : N) (ks : list N) (g : list (option (option W)) -> W) (out : W -> R) (r0 : R)
+         (is_user : nat -> bool) (s0 : store (option W)),
+    cls k = Multi (cacheP (g (map base ks))) -> (forall x, In x ks -> cls x = Frozen) ->
+    consistentc cls base s0 ->
+    let ps : pool (option W) R := fun i => if is_user i then use_cache k ks g (fun w => Ret (out w)) else Del k (Ret r0) in
+    forall sched i r, result (exec sched (init ps s0)) i = Some r ->
+      r = (if is_user i then out (g (map base ks)) else r0).
+Proof. exact del_invalidate_confluent. Qed.
+Print Assumptions C20_del_invalidate_confluent.
+
+(* deleting a location that is only ever deleted is an idempotent write (the tombstone is its one value) *)
+Theorem C20_del_only_confluent :
+  forall (W R : Type) (cls : N -> lclass (option W)) (base : store (option W)) i k (p : prog (option W) R) pv kn r pf,
+    cls k = Idem None -> okp cls base i pv (addk k kn) p r pf -> okp cls base i pv kn (Del k p) r pf.
+Proof. exact okp_del_only. Qed.
+Print Assumptions C20_del_only_confluent.
+
+(* refuted: hasattr-then-getitem against an invalidator (seeded C20-6): KeyError; the no-read-back use under the same
+   schedule is fine; the deletion is a destructive write *)
+Theorem C20_del_readback_refuted :
+  let s0 : store (option N) := upd (fun _ => None) 7%N (Some 42%N) in
+  let reader : prog (option N) N := use_cache_readback 7%N [] (fun _ => 42%N) 999%N (fun w => Ret w) in
+  let deleter : prog (option N) N := Del 7%N (Ret 0%N) in
+  result (exec [0; 1; 0] (init (fun i => match i with 0 => reader | _ => deleter end) s0)) 0 = Some 999%N /\
+  fst (solo reader s0) = 42%N /\
+  result (exec [0; 1; 0] (init (fun i => match i with 0 => use_cache 7%N [] (fun _ => 42%N) (fun w => Ret w) | _ => deleter end) s0)) 0
+    = Some 42%N /\
+  In KDestructiveWrite (kinds (fun a b : option N => match a, b with Some x, Some y => N.eqb x y | None, None => true | _, _ => false end)
+                              [0; 1] (init (fun i => match i with 0 => reader | _ => deleter end) s0)).
+Proof. exact del_readback_refuted. Qed.
+Print Assumptions C20_del_readback_refuted.
+
+(* the monitor's view: a removal is classified ERemove, never accepted for a non-volatile location; relative to a set of
+   volatile (Multi) locations the check is sound for all others *)
+Theorem C20_removal_classified : forall e a, e_old e = Some a -> e_new e = None -> ev_kind e = ERemove /\ ev_ok e = false.
+Proof. intros e a H1 H2. split; [exact (removal_kind e a H1 H2)|exact (removal_rejected e H2)]. Qed.
+Print Assumptions C20_removal_classified.
+
+Theorem C20_footprint_check_vol_sound : forall vol evs, footprint_ok_vol vol evs = true ->
+  exists memo : N -> option N, forall e, In e evs -> vol (e_key e) = false -> ev_legal memo e /\ pat_refuted (e_pat e) = false.
+Proof. exact footprint_ok_vol_sound. Qed.
+Print Assumptions C20_footprint_check_vol_sound.
